@@ -27,6 +27,7 @@ func c10Extra(c *Ctx) {
 	c10BuilderRecords(c, pk)
 	c10ImportKindBlind(c)
 	c10AddNotTargetGated(c)
+	c10c11TargetPaths(c)
 	ruleFilteredPreferred(c, "TARGETS-PREFERRED", pk, 1)
 	ruleDelegateErr(c, "DELEGATE-ERR", []*packages.Package{pk})
 	// (b) owner loop
@@ -737,4 +738,17 @@ func ruleIsEmptyCovers(c *Ctx, rule string) {
 	if n < 3 {
 		c.Fail(rule, "count", token.NoPos, "only %d isEmpty methods", n)
 	}
+}
+
+// c10c11TargetPaths shares PATHS-BY-COMPONENT (written for C01) with C10 ("ls-files lists exactly the files build
+// would put in the image": IsTargetFile and the target walk must agree) and C11 (module-level and image-level --path
+// selection agree).
+func c10c11TargetPaths(c *Ctx) {
+	var tp []*packages.Package
+	for _, rel := range []string{"private/bufpkg/bufmodule", "private/buf/bufworkspace", "private/buf/buftarget", "private/bufpkg/bufimage"} {
+		if q := c.P.Pkg(rel); q != nil {
+			tp = append(tp, q)
+		}
+	}
+	ruleTargetPathsByComponent(c, "PATHS-BY-COMPONENT", tp)
 }
